@@ -24,6 +24,7 @@ EXPECTED = {
 }
 # floors: number of MIR bodies seen on the reviewed tree (a silently skipped wrapper cannot pass)
 FLOOR_BODIES = {"gamedig-lib": 1500, "gamedig_cli-bin": 40, "gamedig_id_tests-lib": 25, "gamedig_id_tests-bin": 1}
+FLOOR_BODIES_CFG = {("libdefault", "gamedig-lib"): 900, ("allfeatures", "gamedig-lib"): 1500}
 
 
 def _sysroot():
@@ -69,6 +70,10 @@ def extract(config="baseline", repo=None, verbose=False):
     out = os.path.join(CACHE, key)
     marker = os.path.join(out, "OK")
     if os.path.exists(marker):
+        try:
+            os.utime(out)
+        except OSError:
+            pass
         return out
     os.makedirs(CACHE, exist_ok=True)
     tmp_out = tempfile.mkdtemp(prefix="gdfacts_out_", dir=CACHE)
@@ -110,7 +115,7 @@ def extract(config="baseline", repo=None, verbose=False):
     return out
 
 
-def _prune_cache(keep, max_entries=6):
+def _prune_cache(keep, max_entries=10):
     try:
         ents = [os.path.join(CACHE, d) for d in os.listdir(CACHE)]
         ents = [e for e in ents if os.path.isdir(e) and e != keep and os.path.exists(os.path.join(e, "OK"))]
@@ -150,7 +155,8 @@ def load(config="baseline", name="gamedig-lib", repo=None):
     if k not in _loaded:
         with open(os.path.join(d, name + ".json")) as fh:
             doc = json.load(fh)
-        if doc["n_mir"] < FLOOR_BODIES.get(name, 1):
-            raise RuntimeError("facts for %s have only %d bodies (< floor %d)" % (name, doc["n_mir"], FLOOR_BODIES[name]))
+        floor = FLOOR_BODIES_CFG.get((config, name), FLOOR_BODIES.get(name, 1))
+        if doc["n_mir"] < floor:
+            raise RuntimeError("facts for %s (%s) have only %d bodies (< floor %d)" % (name, config, doc["n_mir"], floor))
         _loaded[k] = Crate(doc)
     return _loaded[k]
